@@ -354,6 +354,71 @@ fn builtin_loaders(bytes: &[u8], variant: Variant) -> Option<(String, String)> {
     None
 }
 
+/// One read fails once, with each kind in turn (also the kinds std's own loops retry or treat as "try again"): the
+/// load that met it fails with that I/O error and names the id (extensions ["x"]) or falls through to the next
+/// extension (["x", "y"]), after reading the failing entry exactly once; nothing is cached; the same call then succeeds.
+fn transient_read_fault(bytes: &[u8]) -> Option<(String, String)> {
+    const TRANSIENT: [io::ErrorKind; 8] = [
+        io::ErrorKind::PermissionDenied,
+        io::ErrorKind::InvalidData,
+        io::ErrorKind::UnexpectedEof,
+        io::ErrorKind::Other,
+        io::ErrorKind::TimedOut,
+        io::ErrorKind::Interrupted,
+        io::ErrorKind::WouldBlock,
+        io::ErrorKind::OutOfMemory,
+    ];
+    // (decodable content: the harness loader rejects a leading '!')
+    let bytes: Vec<u8> = bytes.iter().copied().skip_while(|b| *b == b'!').collect();
+    DV_MODE.with(|m| m.set(0));
+    for kind in TRANSIENT {
+        for two in [false, true] {
+            let src = MemSource::new(false);
+            src.tree().put("t", "x", bytes.clone(), Variant::Buffer);
+            src.tree().put("t", "y", b"second".to_vec(), Variant::Buffer);
+            let cache = AssetCache::with_source(src.handle());
+            {
+                let mut f = src.faults();
+                f.counting = true;
+                f.counter = 0;
+                f.fail_at = Some((0, kind));
+            }
+            DV_SEEN.with(|s| s.borrow_mut().clear());
+            let first = if two { do_op::<Ext<2>>(cache.as_any_cache(), "t", LoadKind::Load) } else { do_op::<Ext<1>>(cache.as_any_cache(), "t", LoadKind::Load) };
+            let reads = src.faults().counter;
+            src.faults().fail_at = None;
+            let cached_after = if two { cache.contains::<Ext<2>>("t") } else { cache.contains::<Ext<1>>("t") };
+            let what = |m: String| Some(("transient-read-fault".to_string(), format!("extensions {:?}, the first read of (\"t\", \"x\") fails once with {kind:?}: {m}", EXTS[if two { 2 } else { 1 }])));
+            if two {
+                let want = Got::Val(format!("{:?}={}", "y", render_bytes(b"second")));
+                if first != want {
+                    return what(format!("the load returned {first:?}, expected the second extension's value {want:?}"));
+                }
+                if reads != 2 {
+                    return what(format!("the load read the source {reads} times, expected one read per extension"));
+                }
+            } else {
+                match &first {
+                    Got::Err(ids, Class::IoOther, Some(k)) if *k == kind && ids == &vec!["t".to_string()] => {}
+                    other => return what(format!("the load returned {other:?}, expected an error naming \"t\" with that I/O error as its reason")),
+                }
+                if reads != 1 {
+                    return what(format!("the failing load read the source {reads} times, expected once"));
+                }
+                if cached_after {
+                    return what("the failing load left an entry in the cache".into());
+                }
+                let again = do_op::<Ext<1>>(cache.as_any_cache(), "t", LoadKind::Load);
+                let want = Got::Val(format!("{:?}={}", "x", render_bytes(&bytes)));
+                if again != want {
+                    return what(format!("the same call after the fault returned {again:?}, expected {want:?}"));
+                }
+            }
+        }
+    }
+    None
+}
+
 /// Whether the content is a parseable payload between non-ASCII white space
 fn unicode_ws_around_payload(bytes: &[u8]) -> bool {
     match std::str::from_utf8(bytes) {
@@ -434,7 +499,7 @@ impl Prop for C03 {
          load / load_owned / load_expect / contains / get_cached at any chain level). Oracle computed from the statement: first declared extension that is present \
          and decodable wins and the loader sees exactly its bytes and extension; otherwise error class Conversion > Io(other) > NotFound > no-default, default_value \
          receives that class and decides; errors name the requested id and nest once per compound level; failures cache nothing; cached levels shadow later edits, load_owned follows the source. \
-         Every content of the case also goes through the loaders the crate ships (BytesLoader, StringLoader, ParseLoader for u64 / i32 / f64 / bool / char / IpAddr, borrowed and owned; the String and SharedString assets through a cache): exactly the bytes / exactly the text / FromStr of the text without its surrounding (Unicode) white space. \
+         Every content of the case also goes through the loaders the crate ships (BytesLoader, StringLoader, ParseLoader for u64 / i32 / f64 / bool / char / IpAddr, borrowed and owned; the String and SharedString assets through a cache): exactly the bytes / exactly the text / FromStr of the text without its surrounding (Unicode) white space; and a read that fails once with each of 8 I/O error kinds (incl. Interrupted, WouldBlock) fails that load with that error after exactly one read, or falls through to the next extension, and caches nothing. \
          non-trivial = >= 2 declared extensions in different states, or a failing load followed by a successful one on the same level, or depth >= 2; distinct = different canonical JSON"
             .into()
     }
@@ -634,7 +699,17 @@ impl Prop for C03 {
             _ => None,
         }));
         let mut seen_ws = false;
+        let mut transient_done = false;
         for st in contents {
+            if let State::Present { bytes, .. } = st {
+                if !transient_done && bytes.len() <= 64 {
+                    transient_done = true;
+                    if let Some((sig, what)) = transient_read_fault(bytes) {
+                        out.fail(sig, what);
+                        return out;
+                    }
+                }
+            }
             if let State::Present { bytes, variant } = st {
                 if let Some((sig, what)) = builtin_loaders(bytes, *variant) {
                     out.fail(sig, what);
